@@ -1298,3 +1298,127 @@ def phase_argspace(ctx, phase):
     ctx.replay_stats["nontrivial"] = ctx.replay_stats.get("nontrivial", 0) + len(recs)
     ctx.tlc_runs.append(dict(profile="arg-space", states=0, distinct=0, configurations=len(cfgs), mode="TLC enumerates configurations, then judges the recorded outcomes"))
     return d
+
+
+def _cachegraph_exec(args):
+    """worker: executes transitions of the complete metadata graph (MC_CacheGraph) on real tables (Polars, one row).
+    A representative of a source state is built by replaying its BFS path from the source table."""
+    src, parents, trans = args
+    import polars as pl
+    import pydiverse.transform as pdt
+    from pydiverse.transform import alias, arrange, drop, filter, group_by, mutate, rename, select, slice_head, summarize, ungroup
+
+    base_df = pl.DataFrame({n: [i + 1] for i, n in enumerate(src)})
+    reps = {}
+
+    def key(s):
+        return json.dumps(s, sort_keys=True)
+
+    def apply(t, verb, a):
+        first = next(iter(t))
+        if verb == "select":
+            return t >> select(*[t[n] for n in a])
+        if verb == "drop":
+            return t >> drop(*[t[n] for n in a])
+        if verb == "rename":
+            return t >> rename({o: n for o, n in a})
+        if verb == "mutate":
+            return t >> mutate(**{n: first + (i + 1) for i, n in enumerate(a)})
+        if verb == "filter":
+            return t >> filter(first == first)
+        if verb == "arrange":
+            return t >> arrange(first)
+        if verb == "slice_head":
+            return t >> slice_head(3)
+        if verb == "group_by":
+            return t >> group_by(*[t[n] for n in a])
+        if verb == "group_by_add":
+            return t >> group_by(*[t[n] for n in a], add=True)
+        if verb == "ungroup":
+            return t >> ungroup()
+        if verb == "summarize":
+            return t >> summarize(**{n: first.max() for n in a})
+        if verb == "alias":
+            return t >> alias(keep_col_refs=True)
+        raise ValueError(verb)
+
+    def rep(k):
+        if k in reps:
+            return reps[k]
+        if parents[k] is None:
+            reps[k] = pdt.Table(base_df, name="t")
+        else:
+            pk, verb, a = parents[k]
+            reps[k] = apply(rep(pk), verb, a)
+        return reps[k]
+
+    def meta(t):
+        c = t._cache
+        return dict(names=list(c.name_to_uuid.keys()), part=[c.uuid_to_name.get(u, "?hidden") for u in c.partition_by],
+                    lim=int(c.limit), ngrp=1 if len(c.group_by) > 0 else 0, filt=bool(c.is_filtered), summ=bool(c.is_summarized))
+
+    bad = []
+    n = 0
+    for tr in trans:
+        n += 1
+        try:
+            t = rep(key(tr["s"]))
+            r = apply(t, tr["verb"], tr["args"])
+            got = meta(r)
+            want = {k: tr["t"][k] for k in ("names", "part", "lim", "ngrp", "filt", "summ")}
+            if got != want:
+                bad.append(dict(tr=tr, got=got, why="metadata"))
+        except Exception as e:  # noqa: BLE001
+            bad.append(dict(tr=tr, got=None, why=f"raised {type(e).__name__}: {str(e)[:120]}"))
+    return n, bad[:50], len(bad)
+
+
+def phase_cachegraph(ctx, phase):
+    """the complete reachable graph of the metadata plane (MC_CacheGraph.tla): invariants for verb sequences of any length,
+    and every transition executed on the real code"""
+    src = phase.get("src", ["a", "b", "c"])
+    new = phase.get("new", ["x"])
+    d = tlc.prepare(f"{ctx.prop}-cachegraph-{os.getpid()}", ctx.seed)
+    with open(os.path.join(d, "Run.tla"), "w") as f:
+        f.write("---- MODULE Run ----\nEXTENDS MC_CacheGraph\nSrcDef == " + tlc.tla_lit(src) + "\nNewDef == {" + ", ".join(tlc.tla_lit(x) for x in new) + "}\n====\n")
+    with open(os.path.join(d, "Run.cfg"), "w") as f:
+        f.write("CONSTANTS\n  Src <- SrcDef\n  NewNames <- NewDef\nINIT Init\nNEXT Next\nCHECK_DEADLOCK FALSE\nINVARIANT NamesDistinct\nINVARIANT NonEmpty\n"
+                "INVARIANT GroupsVisible\nPROPERTY SummarizedKeepsFlag\nPROPERTY FilteredKeepsFlag\n")
+    trans = []
+    res = tlc.run(d, workers=1, timeout=phase.get("timeout", 900), on_json=trans.append)
+    if res["violations"]:
+        raise tlc.TlcError("MC_CacheGraph: an invariant of the metadata plane is violated:\n" + "\n".join(res.get("errctx", []) + res["log"][-30:]))
+
+    def key(s):
+        return json.dumps(s, sort_keys=True)
+
+    init = dict(names=src, part=[], lim=0, ngrp=0, filt=False, summ=False)
+    parents = {key(init): None}
+    for tr in trans:            # BFS order (one worker): the first transition into a state gives its path
+        kt = key(tr["t"])
+        if kt not in parents:
+            parents[kt] = (key(tr["s"]), tr["verb"], tr["args"])
+    stride = phase.get("stride", 1)
+    todo = trans[::stride]
+    n = 16
+    futs = [ctx.get_pool().submit(_cachegraph_exec, (src, parents, todo[w::n])) for w in range(n)]
+    done = nbad = 0
+    for fu in futs:
+        k, bad, nb = fu.result()
+        done += k
+        nbad += nb
+        for b in bad[:10]:
+            tr = b["tr"]
+            ctx.failures.append(dict(clause="meta", backend="polars", step=0, tainted=False, src=["graph"], srcidx=0,
+                                     detail=f"metadata graph: state {tr['s']} --{tr['verb']}({tr['args']})--> expected {tr['t']}, code: {b['got']} {b['why']}",
+                                     moves=[dict(v=tr["verb"].replace("_add", ""), i=1)], heap_obs=[], beh=b))
+    ctx.extra["cache_graph"] = dict(states=res["distinct"], transitions=len(trans), transitions_executed=done, disagreeing=nbad,
+                                    complete=not res["timed_out"], universe=dict(source=src, new_names=new),
+                                    invariants=["NamesDistinct", "NonEmpty", "GroupsVisible", "SummarizedKeepsFlag", "FilteredKeepsFlag"])
+    ctx.tlc_states += res["states"]
+    ctx.tlc_distinct += res["distinct"]
+    ctx.tlc_runs.append(dict(profile="cache-graph", states=res["states"], distinct=res["distinct"], mode="bfs to the fixed point (complete graph)", wall=round(res["wall"], 1)))
+    ctx.behaviours += done
+    ctx.replay_stats["steps_new"] = ctx.replay_stats.get("steps_new", 0) + done
+    ctx.replay_stats["nontrivial"] = ctx.replay_stats.get("nontrivial", 0) + done
+    return d
